@@ -1506,6 +1506,10 @@ type ServerSession struct {
 	// via jsonrpc2.Connection.Cancel to avoid deadlocking on the jsonrpc2
 	// drain. See modelcontextprotocol/go-sdk#1160.
 	listenIDs []jsonrpc.ID
+	// closing is set once Close has collected listenIDs. A subscriptions/listen
+	// request that was accepted before Close but is dispatched after that point
+	// would otherwise park forever and deadlock the jsonrpc2 drain.
+	closing bool
 }
 
 func (ss *ServerSession) updateState(mut func(*ServerSessionState)) {
@@ -1949,7 +1953,13 @@ func (ss *ServerSession) handle(ctx context.Context, req *jsonrpc.Request) (any,
 	if req.Method == methodSubscriptionsListen {
 		ss.mu.Lock()
 		ss.listenIDs = append(ss.listenIDs, req.ID)
+		closing := ss.closing
 		ss.mu.Unlock()
+		if closing {
+			// Close has already cancelled the listens it knew about; cancel this
+			// one too so that its handler does not park on ctx.Done.
+			ss.conn.Cancel(req.ID)
+		}
 	}
 
 	res, err := handleReceive(ctx, ss, req)
@@ -2062,6 +2072,7 @@ func (ss *ServerSession) Close() error {
 	ss.mu.Lock()
 	ids := ss.listenIDs
 	ss.listenIDs = nil
+	ss.closing = true
 	ss.mu.Unlock()
 	for _, id := range ids {
 		ss.conn.Cancel(id)
